@@ -90,6 +90,11 @@ class Ev:
         return f'<ev#{self.id} {self.kind} {self.inst.unit.name}:{self.lineno} {self.text(50)}>'
 
 
+_DESUGARED: Dict[int, ast.AST] = {}
+_DESUGARED_KEEP: List[ast.AST] = []
+_UNROLLED: Dict[int, Optional[List[ast.stmt]]] = {}
+
+
 class Graph:
     def __init__(self, root: FuncUnit) -> None:
         self.root = root
@@ -331,12 +336,170 @@ class Builder:
 
     # ------------------------------------------------------------------ statements
     def stmts(self, body: List[ast.stmt], fr: Frontier, frame: Frame) -> Frontier:
+        body = self._desugar_acquire_release(body, frame)
+        body = self._desugar_literal_loops(body, frame)
         for st in body:
             if not fr:
                 # unreachable code after return/raise: still skip (no events)
                 break
             fr = self.stmt(st, fr, frame)
         return fr
+
+    _LOCK_TYPES = ('asyncio.Condition', 'asyncio.Lock', 'asyncio.locks.Condition', 'asyncio.locks.Lock',
+                   'asyncio.Semaphore', 'asyncio.BoundedSemaphore')
+
+    def _desugar_acquire_release(self, body: List[ast.stmt], frame: Frame) -> List[ast.stmt]:
+        """`await X.acquire(); try: B finally: X.release()` on an asyncio lock / condition is, by the
+        documented equivalence, `async with X: B`: it is analysed as that statement so the lock rules see one
+        critical section whatever spelling is used."""
+        out: List[ast.stmt] = []
+        i = 0
+        changed = False
+        while i < len(body):
+            st = body[i]
+            nxt = body[i + 1] if i + 1 < len(body) else None
+            x = self._acquire_of(st)
+            if x is not None and isinstance(nxt, ast.Try) and not nxt.handlers and not nxt.orelse \
+                    and len(nxt.finalbody) == 1 and self._release_of(nxt.finalbody[0]) == unparse(x) \
+                    and self._is_lock(x, frame):
+                cache = _DESUGARED
+                w = cache.get(id(st))
+                if w is None:
+                    w = ast.AsyncWith(items=[ast.withitem(context_expr=x, optional_vars=None)], body=nxt.body, type_comment=None)
+                    ast.copy_location(w, st)
+                    w.end_lineno = getattr(nxt, 'end_lineno', None)
+                    w.end_col_offset = getattr(nxt, 'end_col_offset', None)
+                    cache[id(st)] = w
+                    _DESUGARED_KEEP.append(st)
+                out.append(w)
+                i += 2
+                changed = True
+                continue
+            out.append(st)
+            i += 1
+        return out if changed else body
+
+    def _desugar_literal_loops(self, body: List[ast.stmt], frame: Frame) -> List[ast.stmt]:
+        """`for a, b in ((x1, y1), (x2, y2)): B` over a literal display of side-effect-free elements is the
+        sequence B[a:=x1, b:=y1]; B[a:=x2, b:=y2] (no break / continue / rebinding in B, targets dead afterwards):
+        a table-driven loop is analysed as the statements it stands for."""
+        if not any(isinstance(st, ast.For) for st in body):
+            return body
+        out: List[ast.stmt] = []
+        changed = False
+        for idx, st in enumerate(body):
+            rep = self._unrolled(st, body[idx + 1:], frame) if isinstance(st, ast.For) else None
+            if rep is None:
+                out.append(st)
+            else:
+                out.extend(rep)
+                changed = True
+        return out if changed else body
+
+    def _unrolled(self, st: ast.For, rest: List[ast.stmt], frame: Frame) -> Optional[List[ast.stmt]]:
+        key = id(st)
+        if key in _UNROLLED:
+            return _UNROLLED[key]
+        res = None
+        try:
+            res = self._unroll(st, rest, frame)
+        finally:
+            _UNROLLED[key] = res
+            _DESUGARED_KEEP.append(st)
+        return res
+
+    def _unroll(self, st: ast.For, rest: List[ast.stmt], frame: Frame) -> Optional[List[ast.stmt]]:
+        import copy
+        if st.orelse:
+            return None
+        it = st.iter
+        env = FuncEnv.of(self.p, frame.inst.unit)
+        if isinstance(it, ast.Name):
+            defs = env.local_defs().get(it.id) or []
+            if len(defs) == 1 and defs[0][0] == 'assign':
+                it = defs[0][1]
+            elif len(defs) == 1 and defs[0][0] == 'annassign' and defs[0][2] is not None:
+                it = defs[0][2]
+        if not isinstance(it, (ast.Tuple, ast.List)) or not it.elts or len(it.elts) > 8:
+            return None
+
+        def simple(e):
+            if isinstance(e, (ast.Constant, ast.Name)):
+                return True
+            if isinstance(e, ast.Attribute):
+                return simple(e.value)
+            return False
+        targets = [st.target] if isinstance(st.target, ast.Name) else (list(st.target.elts) if isinstance(st.target, (ast.Tuple, ast.List)) else None)
+        if targets is None or not all(isinstance(t, ast.Name) for t in targets):
+            return None
+        names = [t.id for t in targets]
+        rows = []
+        for e in it.elts:
+            if isinstance(st.target, ast.Name):
+                if not simple(e):
+                    return None
+                rows.append([e])
+            else:
+                if not isinstance(e, (ast.Tuple, ast.List)) or len(e.elts) != len(names) or not all(simple(x) for x in e.elts):
+                    return None
+                rows.append(list(e.elts))
+        for n in ast.walk(ast.Module(body=st.body, type_ignores=[])):
+            if isinstance(n, (ast.Break, ast.Continue, ast.Return, ast.FunctionDef, ast.AsyncFunctionDef, ast.Lambda, ast.Yield, ast.YieldFrom)):
+                return None
+            if isinstance(n, ast.Name) and n.id in names and isinstance(n.ctx, (ast.Store, ast.Del)):
+                return None
+        # names written in the body must not feed the element expressions
+        written = {n.id for n in ast.walk(ast.Module(body=st.body, type_ignores=[])) if isinstance(n, ast.Name) and isinstance(n.ctx, ast.Store)}
+        for row in rows:
+            for e in row:
+                if any(isinstance(x, ast.Name) and x.id in written for x in ast.walk(e)):
+                    return None
+        for r in rest:
+            if any(isinstance(n, ast.Name) and n.id in names for n in ast.walk(r)):
+                return None
+
+        class Sub(ast.NodeTransformer):
+            def __init__(self, table):
+                self.table = table
+
+            def visit_Name(self, node):
+                if isinstance(node.ctx, ast.Load) and node.id in self.table:
+                    return ast.copy_location(copy.deepcopy(self.table[node.id]), node)
+                return node
+        out: List[ast.stmt] = []
+        for row in rows:
+            table = dict(zip(names, row))
+            for b in st.body:
+                nb = Sub(table).visit(copy.deepcopy(b))
+                ast.fix_missing_locations(nb)
+                out.append(nb)
+        return out
+
+    @staticmethod
+    def _acquire_of(st) -> Optional[ast.AST]:
+        if isinstance(st, ast.Expr) and isinstance(st.value, ast.Await) and isinstance(st.value.value, ast.Call):
+            c = st.value.value
+            if isinstance(c.func, ast.Attribute) and c.func.attr == 'acquire' and not c.args and not c.keywords:
+                return c.func.value
+        return None
+
+    @staticmethod
+    def _release_of(st) -> Optional[str]:
+        if isinstance(st, ast.Expr) and isinstance(st.value, ast.Call):
+            c = st.value
+            if isinstance(c.func, ast.Attribute) and c.func.attr == 'release' and not c.args and not c.keywords:
+                return unparse(c.func.value)
+        return None
+
+    def _is_lock(self, x: ast.AST, frame: Frame) -> bool:
+        env = FuncEnv.of(self.p, frame.inst.unit)
+        probe = ast.Call(func=ast.Attribute(value=x, attr='acquire', ctx=ast.Load()), args=[], keywords=[])
+        try:
+            tg = env.resolve_call(probe)
+        except Exception:
+            return False
+        return any(t[0] == 'ext' and any(t[1].startswith(lt + '.') or t[1].endswith(lt.split('.')[-1] + '.acquire') for lt in self._LOCK_TYPES)
+                   for t in tg)
 
     def stmt(self, st: ast.stmt, fr: Frontier, frame: Frame) -> Frontier:
         inst = frame.inst
@@ -450,9 +613,28 @@ class Builder:
         lf = LoopFrame(frame, inst, header, after)
         out = self.stmts(st.body, [(header, 'T')], lf)
         self.connect(out, header, 'back')
+        if self._endless_iter(st.iter, frame):
+            # itertools.count() / cycle() / repeat(x) never end: the loop is left by break / return / raise only
+            self.g.evs[header].info['endless'] = True
+            return [(after, 'n')] if self.g.pred.get(after) else []
         else_out = self.stmts(st.orelse, [(header, 'F')], frame) if st.orelse else [(header, 'F')]
         self.connect(else_out, after)
         return [(after, 'n')]
+
+    def _endless_iter(self, it: ast.AST, frame: Frame) -> bool:
+        if not isinstance(it, ast.Call):
+            return False
+        env = FuncEnv.of(self.p, frame.inst.unit)
+        try:
+            tg = env.resolve_call(it)
+        except Exception:
+            return False
+        for t in tg:
+            if t[0] == 'ext' and t[1] in ('itertools.count', 'itertools.cycle'):
+                return True
+            if t[0] == 'ext' and t[1] == 'itertools.repeat' and len(it.args) == 1 and not it.keywords:
+                return True
+        return False
 
     def try_stmt(self, st: ast.Try, fr: Frontier, frame: Frame) -> Frontier:
         inst = frame.inst
